@@ -3,7 +3,10 @@
 set -e
 cd "$(dirname "$0")"
 export PYTHONHASHSEED=0 PYTHONDONTWRITEBYTECODE=1
-/venv/bin/python harness/gen_tables.py 2>&1 | grep -v 'WARNING conda' || true
+# T1: every harness/gen_*.py regenerates its own coq/gen/*.v from ${VERIF_REPO:-/repo} (rewritten only on change)
+for g in harness/gen_*.py; do
+  PYTHONPATH="${VERIF_REPO:-/repo}/src:$(pwd)" /venv/bin/python "$g" 2>&1 | grep -v 'WARNING conda' || true
+done
 cd coq
 ( echo "-Q . BP"; find Base gen Model Spec Proofs Properties -name '*.v' | LC_ALL=C sort ) > _CoqProject.new
 if ! cmp -s _CoqProject.new _CoqProject 2>/dev/null; then mv _CoqProject.new _CoqProject; coq_makefile -f _CoqProject -o Makefile >/dev/null; else rm _CoqProject.new; fi
